@@ -501,6 +501,26 @@ def run(ctx):
                 sysm.append({'overwrite': True, 'overwrite_part': False, 'rm_part_on_exc': True, 'text_mode': False,
                              'file_perms': None, 'umask': 0o022, 'dest': dest, 'part': 'absent', 'writes': [5, 9],
                              'flush': [], 'raise_at': at, 'raise_kind': kind})
+    # the save is made from the caller's own exception handler / finally clause (an error report, a fallback file)
+    for within in ('except', 'finally'):
+        for dest in ('absent', 'present'):
+            for at in (None, 1):
+                s_ = {'overwrite': True, 'overwrite_part': False, 'rm_part_on_exc': True, 'text_mode': False,
+                      'file_perms': None, 'umask': 0o022, 'dest': dest, 'part': 'absent', 'writes': [5, 9],
+                      'flush': [], 'within': within}
+                if at is not None:
+                    s_['raise_at'] = at
+                sysm.append(s_)
+    # the leftover part file is a hard link of the destination itself
+    for owp in (True, False):
+        for rm in (True, False):
+            for at in (None, 0, 1):
+                s_ = {'overwrite': True, 'overwrite_part': owp, 'rm_part_on_exc': rm, 'text_mode': False,
+                      'file_perms': None, 'umask': 0o022, 'dest': 'present', 'part': 'present', 'part_link': True,
+                      'writes': [5, 9], 'flush': [0]}
+                if at is not None:
+                    s_['raise_at'] = at
+                sysm.append(s_)
     st.counters['strace_available'] = int(F.strace_available())
     nA = {'quick': 1, 'thorough': 25}[ctx.tier]
     for i, scn in enumerate(scns + sysm):
